@@ -23,6 +23,7 @@ const h2Preface = "PRI * HTTP/2.0\r\n\r\nSM\r\n\r\n"
 
 // H2Opts are the knobs of one endpoint, drawn per run.
 type H2Opts struct {
+	NoCredit bool // never grants any flow-control credit beyond the initial windows (a peer that does not read)
 	InitWin   uint32 // SETTINGS_INITIAL_WINDOW_SIZE we advertise
 	MaxFrame  uint32 // SETTINGS_MAX_FRAME_SIZE we advertise (>= 16384)
 	TableSize uint32 // SETTINGS_HEADER_TABLE_SIZE we advertise: bounds MOSN's encoder
@@ -408,7 +409,7 @@ func (e *H2End) handle(f http2.Frame) {
 		if f.StreamEnded() {
 			st.ended = true
 		}
-		if e.O.Eager && n > 0 {
+		if e.O.Eager && !e.O.NoCredit && n > 0 {
 			_ = e.fr.WriteWindowUpdate(0, uint32(n))
 			e.recvConn += n
 			if !st.ended {
@@ -416,7 +417,7 @@ func (e *H2End) handle(f http2.Frame) {
 				st.recvWin += n
 			}
 		}
-		if !st.ended && st.dataSeen > 40 && n < 256 && st.recvWin < 1<<20 && st.recvWin+e.pendingInitDelta()+1<<20 <= 1<<31-1 && st.recvWin+e.pendingInitDelta() < 1<<20 {
+		if !e.O.NoCredit && !st.ended && st.dataSeen > 40 && n < 256 && st.recvWin < 1<<20 && st.recvWin+e.pendingInitDelta()+1<<20 <= 1<<31-1 && st.recvWin+e.pendingInitDelta() < 1<<20 {
 			// enough of dripping on this stream: open the windows so that the run stays affordable
 			_ = e.fr.WriteWindowUpdate(st.id, 1<<20)
 			st.recvWin += 1 << 20
@@ -443,7 +444,7 @@ func (e *H2End) message(st *h2stream) {
 // Credit is called by the world's credit events: every open stream whose window
 // is below what a sender could use gets one drawn grant, and so does the connection.
 func (e *H2End) Credit() (granted bool) {
-	if e.Err != nil || e.Closed || e.Conn == nil {
+	if e.Err != nil || e.Closed || e.Conn == nil || e.O.NoCredit {
 		return false
 	}
 	before := e.Grants
